@@ -43,6 +43,11 @@ Definition lop_eqb (a b : lop) : bool :=
 Fixpoint lops_eqb (a b : list lop) : bool :=
   match a, b with [], [] => true | x :: a', y :: b' => lop_eqb x y && lops_eqb a' b' | _, _ => false end.
 
+(* the same operations in any order (for statements that do not depend on each other) *)
+Definition lops_count (x : lop) (l : list lop) : nat := length (filter (lop_eqb x) l).
+Definition lops_perm_eqb (a b : list lop) : bool :=
+  Nat.eqb (length a) (length b) && forallb (fun x => Nat.eqb (lops_count x a) (lops_count x b)) a.
+
 Definition close_expr (ls : lspec_t) : cexpr :=
   match find (fun o => match o with OClearLoop _ => true | _ => false end) (ls_close ls) with Some (OClearLoop k) => k | _ => CConst 0 end.
 Definition queue_expr (ls : lspec_t) : cexpr :=
@@ -73,7 +78,11 @@ Definition wf_lspec (ls : lspec_t) : bool :=
   lops_eqb (ls_loop_after ls) [OCloseDone] &&
   lops_eqb (ls_close ls) [OIfInactiveReturn; OCloseMesgc; OClearLoop CBuf; OWaitDone; OSetInactive] &&
   lops_eqb (ls_file ls) [OCallClose; OReturnFile] &&
-  lops_eqb (ls_reset ls) [OFileNil; ONewMesgc CBuf; ONewDone; OSetActive; OSpawnLoop] &&         (* a new sequence starts from no file *)
+  (* a new sequence starts from no file, with fresh channels, marked active -- in any order -- and only then is the worker spawned *)
+  match rev (ls_reset ls) with
+  | OSpawnLoop :: r => lops_perm_eqb r [OFileNil; ONewMesgc CBuf; ONewDone; OSetActive]
+  | _ => false
+  end &&
   lops_eqb (ls_Reset ls) [OCallClose; OSavePrev; ODefaultOptions; OApplyOptions; ORebuildPool GChanged CBuf CBuf; OCallReset] &&
   lops_eqb (ls_new ls) [ONewZero; OCallResetPub; OReturnSelf] &&
   ls_process_std ls &&
